@@ -86,6 +86,9 @@ func c16Gen(t *rapid.T) c16Plan {
 			}
 			opt.NoRedirect = rapid.IntRange(0, 2).Draw(t, "no-redirect") == 0
 		}
+		if opt.TLS == 0 && len(spec.Hosts) > 0 {
+			opt.CertOnly = rapid.IntRange(0, 2).Draw(t, "cert-without-tls") == 0
+		}
 		c := vfCmd{Op: "deploy", Svc: svc, Spec: spec, Targets: vfPick(t, vfActivePool, 2, "target"), Opt: opt}
 		if got := m.apply(c); got[0] != "ok" {
 			panic(fmt.Sprintf("c16Gen: %v", got))
